@@ -171,6 +171,10 @@ func loadProgram(prop string) (*loaded, error) {
 	for _, f := range files {
 		overlay[f.dst] = f.data
 		dirs["./"+f.dir] = true
+		// extra packages a harness needs loaded (e.g. for region execution): //verif:load ./app
+		for _, m := range regexp.MustCompile(`(?m)^//verif:load\s+(\S+)`).FindAllSubmatch(f.data, -1) {
+			dirs[string(m[1])] = true
+		}
 	}
 	var patterns []string
 	for d := range dirs {
